@@ -1536,16 +1536,18 @@ fn display_cedarvaluejson(
                 }
             });
             match style {
-                Some(ast::CallStyle::MethodStyle) => {
+                // a method-style function applied to no argument at all has no
+                // receiver to print: it is displayed in function style below
+                Some(ast::CallStyle::MethodStyle) if !args.is_empty() => {
                     #[expect(
                         clippy::indexing_slicing,
-                        reason = "method-style calls must have more than one argument"
+                        reason = "just checked that there is at least one argument"
                     )]
                     display_cedarvaluejson(f, &args[0], n)?;
                     write!(f, ".{ext_fn}(")?;
                     #[expect(
                         clippy::indexing_slicing,
-                        reason = "method-style calls must have more than one argument"
+                        reason = "just checked that there is at least one argument"
                     )]
                     match &args[1..] {
                         [] => {}
@@ -1560,7 +1562,7 @@ fn display_cedarvaluejson(
                     write!(f, ")")?;
                     Ok(())
                 }
-                Some(ast::CallStyle::FunctionStyle) | None => {
+                Some(ast::CallStyle::FunctionStyle | ast::CallStyle::MethodStyle) | None => {
                     write!(f, "{ext_fn}(")?;
                     match &args[..] {
                         [] => {}
